@@ -403,7 +403,22 @@ def run_dforms(case):
     return res
 
 
-KINDS = {"dforms": run_dforms, "reuse": run_reuse, "data": run_data, "recovery": run_recovery, "fallback": run_fallback}
+def run_session19(case):
+    """The fit as the pipeline uses it, on one live sampler through the operation patterns (save / load / run / aborted iteration / pickle round trip /
+    deep copy with the lockstep copy-versus-original step): every mode handed to the kernel has a finite positive dof, and a copied sampler
+    fits and falls back exactly like the original."""
+    from mc import session
+
+    def mon(ev):
+        if ev.step == "train" and ev.info.get("mode_stats") is not None:
+            dof = np.asarray(ev.info["mode_stats"].degrees_of_freedom, dtype=float)
+            if not np.all(np.isfinite(dof)) or np.any(dof <= 0):
+                ev.probe.violate("session:fallback:non-finite-dof", f"iteration {ev.iter}: the Trainer produced degrees of freedom {dof.tolist()}")
+
+    return session.run_case(case, lambda: [mon], oracle=None, key_pred=lambda k: k.startswith("session:fallback") or k.startswith("session:copy"))
+
+
+KINDS = {"session": run_session19, "dforms": run_dforms, "reuse": run_reuse, "data": run_data, "recovery": run_recovery, "fallback": run_fallback}
 
 
 def plan(ctx):
@@ -431,6 +446,8 @@ def plan(ctx):
     ctx.explore("call-histories-and-buffer-reuse", ru)
     df = [{"kind": "dforms", "d": d, "n": n, "law": law, "seed": ctx.seed} for d in (1, 2, 3) + ((5,) if th else ()) for n in (8 * d, 40) for law in ("gauss", "t2", "t5", "skew", "contam5")]
     ctx.explore("data-array-forms", df)
+    scfg = dict(n_particles=24, d=2, ess_ratio=1.0, n_total=10 ** 6, eval="scalar")
+    ctx.explore("pipeline-sessions", [{"kind": "session", "cfg": dict(scfg, target=t, clustering=cl), "base": ctx.seed, "depth": 9, "patterns": [sh, 4]} for t, cl in (("gauss", False), ("bimodal", True)) for sh in range(4)])
     ctx.bounds.update({"dims": [1, 2, 3, 5, 8], "sizes": "4d,10d,50d(,2000)", "laws": laws, "rho": [0, 0.9, -0.99], "data_sets": len(cases), "recovery_cases": len(rec)})
     if not agg.extra.get("fallback_engaged"):
         ctx.notes.append("no fallback case had a non-finite fitted nu under this tape")
